@@ -18,6 +18,7 @@ history (`List Op`, no bound) and every instant.
 import EdzedModel.Persist
 import EdzedProofs.Persist
 import EdzedModel.Gen.TranslatedPersist
+import EdzedModel.Gen.TranslatedPersist2
 import Mathlib.Tactic.NormNum
 import Mathlib.Tactic.Linarith
 
@@ -788,5 +789,175 @@ theorem load_only_if_translated_decision (b : Persist.Blk) (store : Persist.Stor
   cases hs : store.get? b.key <;> simp [hs] at h
   cases he : Persist.expired b.expiration ts now <;> simp [he] at h
   rfl
+
+/-! #### `AddonPersistence.event`, `save_persistent_state`, `Circuit._check_persistent_data` and the save / stamp part
+of `Circuit.run_forever`, translated by tools/py2lean_persist.py (Gen/TranslatedPersist2.lean) -/
+
+open Persist Gen.TrP2 in
+/-- meaning of the primitives of `save_persistent_state` on the storage: `e` is what `get_state()` returns
+    (`none`: it raises) -/
+def runSave (key : String) (e : Option Persist.Entry) : List Gen.TrP2.Prim → Persist.Storage → Persist.Storage
+  | [], s => s
+  | .setItem :: r, s => runSave key e r (match e with | some x => s.set key x | none => s)
+  | .popKey :: r, s => runSave key e r (s.erase key)
+  | _ :: r, s => runSave key e r s
+
+/-- (b) the translated `save_persistent_state` IS the model's `saveBlk`: nothing unless persistent; the state is
+    stored under the key; when `get_state()` raises the key is removed -/
+theorem translated_persist_save_is_model (s : Persist.Storage) (b : Persist.Blk) :
+    runSave b.key (Persist.getState b.kind b.dyn)
+      (Gen.TrP2.saveActs b.persistent (Persist.getState b.kind b.dyn).isNone) s = Persist.saveBlk s b := by
+  unfold Gen.TrP2.saveActs Persist.saveBlk
+  cases hp : b.persistent <;> cases hg : Persist.getState b.kind b.dyn <;> simp [runSave]
+
+/-- the wrapper's state: the block's `persistent` flag and the storage -/
+structure WSt where
+  persistent : Bool
+  store : Persist.Storage
+
+/-- meaning of the primitives of `AddonPersistence.event`; `b` is the block as the handler left it; the
+    `save` primitive is the TRANSLATED `save_persistent_state` -/
+def runEvent (b : Persist.Blk) : List Gen.TrP2.Prim → WSt → WSt
+  | [], s => s
+  | .disable :: r, s => runEvent b r { s with persistent := false }
+  | .save :: r, s =>
+    runEvent b r ⟨s.persistent, runSave b.key (Persist.getState b.kind b.dyn)
+      (Gen.TrP2.saveActs s.persistent (Persist.getState b.kind b.dyn).isNone) s.store⟩
+  | _ :: r, s => runEvent b r s
+
+/-- (a) success path: after `super().event` returned, the translated wrapper saves exactly when the model's
+    `syncSave` does — `persistent ∧ sync_state ∧ is_initialized()` (the repair 85849b6) — and returns -/
+theorem translated_persist_event_success_is_model (s : Persist.Storage) (b : Persist.Blk) (ready : Bool) :
+    runEvent b (Gen.TrP2.eventActs false b.persistent ready b.sync b.dyn.inited) ⟨b.persistent, s⟩
+      = ⟨b.persistent, Persist.syncSave s b⟩ ∧
+    (Gen.TrP2.eventActs false b.persistent ready b.sync b.dyn.inited).head? = some .superEvent ∧
+    (Gen.TrP2.eventActs false b.persistent ready b.sync b.dyn.inited).getLast? = some .ret := by
+  have hsave := translated_persist_save_is_model s b
+  unfold Gen.TrP2.eventActs Persist.syncSave
+  cases hp : b.persistent <;> cases hs : b.sync <;> cases hi : b.dyn.inited <;>
+    simp_all [runEvent]
+
+/-- (a) exception path: nothing is saved, persistence is switched off iff the block is persistent and the
+    circuit is not ready (`persistent := persistent ∧ ready`, the model's rule), the exception is re-raised -/
+theorem translated_persist_event_failure_is_model (s : Persist.Storage) (b : Persist.Blk)
+    (p ready sy ini : Bool) :
+    runEvent b (Gen.TrP2.eventActs true p ready sy ini) ⟨p, s⟩ = ⟨p && ready, s⟩ ∧
+    (Gen.TrP2.eventActs true p ready sy ini).getLast? = some .reraise := by
+  unfold Gen.TrP2.eventActs
+  cases p <;> cases ready <;> simp [runEvent]
+
+/-- (a) the model's run-time wrapper `Circ.event` IS the translated wrapper: with `superRaises` = "the handler's
+    result is an exception", `ready` = `is_ready()` after the event, the block's flag and the storage after
+    `Circ.event` are what the translated action list computes (blocks are initialised at run time) -/
+theorem translated_persist_event_is_circ_event (c c' : Persist.Circ) (cal : Val → Option Bool) (i : Nat)
+    (ev : Persist.Ev) (r : Persist.Res) (b b' : Persist.Blk)
+    (h : c.event cal i ev = some (c', r)) (hb : c.blocks[i]? = some b) (hb' : c'.blocks[i]? = some b')
+    (hin : b'.dyn.inited = true) :
+    runEvent b' (Gen.TrP2.eventActs (match r with | .ret _ => false | _ => true) b.persistent c'.ready b.sync
+      b'.dyn.inited) ⟨b.persistent, c.store⟩ = ⟨b'.persistent, c'.store⟩ := by
+  have hlen : i < c.blocks.length := (List.getElem?_eq_some_iff.mp hb).1
+  unfold Persist.Circ.event at h
+  split at h
+  · simp at h
+  · rw [hb] at h
+    simp only at h
+    generalize Persist.blockEvent b.kind cal c.now b.dyn ev = p at h
+    obtain ⟨d, r0⟩ := p
+    cases r0 with
+    | ret v =>
+      simp only [Option.some.injEq, Prod.mk.injEq] at h
+      obtain ⟨rfl, rfl⟩ := h
+      simp only [List.getElem?_set, hlen, if_true, Option.some.injEq] at hb'
+      subst hb'
+      have h1 := fun rd => (translated_persist_event_success_is_model c.store { b with dyn := d } rd).1
+      simp only at h1 hin
+      rw [h1]
+      simp only [Persist.syncSave, hin, Bool.and_true]
+    | handlerError =>
+      simp only [Option.some.injEq, Prod.mk.injEq] at h
+      obtain ⟨rfl, rfl⟩ := h
+      simp only [List.getElem?_set, hlen, if_true, Option.some.injEq] at hb'
+      subst hb'
+      rw [(translated_persist_event_failure_is_model c.store _ b.persistent _ b.sync _).1]
+      simp only [Persist.Circ.ready]
+      cases hp : c.phase <;> simp
+    | paramError =>
+      simp only [Option.some.injEq, Prod.mk.injEq] at h
+      obtain ⟨rfl, rfl⟩ := h
+      simp only [List.getElem?_set, hlen, if_true, Option.some.injEq] at hb'
+      subst hb'
+      rw [(translated_persist_event_failure_is_model c.store _ b.persistent _ b.sync _).1]
+      rfl
+    | unknown =>
+      simp only [Option.some.injEq, Prod.mk.injEq] at h
+      obtain ⟨rfl, rfl⟩ := h
+      simp only [List.getElem?_set, hlen, if_true, Option.some.injEq] at hb'
+      subst hb'
+      rw [(translated_persist_event_failure_is_model c.store _ b.persistent _ b.sync _).1]
+      rfl
+
+/-- (c) `_check_persistent_data` with a storage: `persistent_ts` is the model's `readTs`, and the entries
+    that remain are exactly the model's `cleanUnused` (keys of persistent blocks and reserved `edzed-…` keys) -/
+theorem translated_persist_check_is_model (s : Persist.Storage) (bs : List Persist.Blk) :
+    ∃ deleted, Gen.TrP2.checkPersistentData true (s.get? Persist.stopKey) (s.map (·.1)) bs
+        = .checked (Persist.readTs s) deleted ∧
+      Persist.cleanUnused s bs = s.filter (fun p => !(deleted.contains p.1)) := by
+  have hfold : ∀ (c : String → Bool) (l acc : List String),
+      l.foldl (fun del key => if c key then del ++ [key] else del) acc = acc ++ l.filter c := by
+    intro c l
+    induction l with
+    | nil => intro acc; simp
+    | cons a r ih =>
+      intro acc
+      simp only [List.foldl_cons, List.filter_cons]
+      cases hc : c a <;> simp [ih]
+  have side : ∀ (d : String → Bool), (∀ k, d k = !(k.startsWith "edzed-")) →
+      Persist.cleanUnused s bs = s.filter (fun p => !(((s.map (·.1)).filter
+        (fun k => !((bs.filter fun blk => blk.persistent).map fun blk => blk.key).contains k)).filter d).contains p.1) := by
+    intro d hd
+    unfold Persist.cleanUnused
+    apply List.filter_congr
+    intro p hp
+    have hk' : ∃ e, (p.1, e) ∈ s := ⟨p.2, hp⟩
+    simp only [Persist.reserved, Persist.persistentKeys, List.contains_eq_mem, List.mem_filter, List.mem_map, hd]
+    cases h1 : p.1.startsWith "edzed-" <;>
+      by_cases h2 : p.1 ∈ List.map (fun blk => blk.key) (List.filter (fun blk => blk.persistent) bs) <;>
+      simp_all
+  unfold Gen.TrP2.checkPersistentData Persist.readTs
+  simp only [Bool.not_true, Bool.false_eq_true, if_false, hfold, List.nil_append]
+  rcases hst : s.get? Persist.stopKey with _ | e
+  · exact ⟨_, rfl, side _ (fun k => by cases h : k.startsWith "edzed-" <;> simp [h])⟩
+  · cases e <;> exact ⟨_, rfl, side _ (fun k => by cases h : k.startsWith "edzed-" <;> simp [h])⟩
+
+/-- (c) without a storage nothing is read or removed: every persistent block gets `persistent = False` -/
+theorem translated_persist_check_without_storage (st : Option Persist.Entry) (ks : List String)
+    (bs : List Persist.Blk) :
+    Gen.TrP2.checkPersistentData false st ks bs = .noStorage (bs.filter (·.persistent)) := by
+  unfold Gen.TrP2.checkPersistentData
+  cases h : (bs.filter (·.persistent)) <;> simp_all
+
+/-- meaning of the primitives of the stop fragment, up to the first `await` of the clean-up -/
+def runStop (t : Nat) : List Gen.TrP2.Prim → Persist.Circ → Persist.Circ
+  | [], c => c
+  | .saveAll :: r, c => runStop t r { c with store := Persist.saveAll c.store c.blocks }
+  | .stamp :: r, c => runStop t r { c with store := c.store.set Persist.stopKey (.ts t) }
+  | .cleanup :: _, c => { c with now := t, phase := if c.phase == .failed then .stoppingF else .stopping }
+  | _ :: r, c => runStop t r c
+
+/-- (d) ORDER: all saves, then the stop time, then the first await of the clean-up — and nothing but the
+    clean-up when the start did not go through or there is no storage; nothing when no block was started -/
+theorem translated_persist_stop_order (so hs : Bool) :
+    Gen.TrP2.stopActs true true true = [.saveAll, .stamp, .cleanup] ∧
+    Gen.TrP2.stopActs true false hs = [.cleanup] ∧ Gen.TrP2.stopActs true so false = [.cleanup] ∧
+    Gen.TrP2.stopActs false so hs = [] := by
+  unfold Gen.TrP2.stopActs
+  cases so <;> cases hs <;> simp
+
+/-- (d) the translated fragment, run up to the first await, IS the model's `stopBegin` -/
+theorem translated_persist_stop_is_model (c : Persist.Circ) (t : Nat)
+    (hph : c.phase = .running ∨ c.phase = .aborted ∨ c.phase = .failed) :
+    runStop t (Gen.TrP2.stopActs true c.startOk true) c = c.stopBegin t := by
+  unfold Gen.TrP2.stopActs Persist.Circ.stopBegin
+  rcases hph with h | h | h <;> cases hs : c.startOk <;> simp [runStop, h, hs]
 
 end Edzed.TrTie
